@@ -564,6 +564,12 @@ func lemmaNrOrder(w1, i1, w2, i2, N int) {}
 //@   ensures  (w+t/W)*W + t%W == w*W + t && 0 <= t%W && t%W < W && t/W >= 0
 func lemmaRoll(w, t, W int) {}
 
+// lemmaTicksBounds: milliseconds converted to media ticks stay small and non-negative.
+//@ lemma lemmaTicksBounds
+//@   requires 0 <= ms && ms <= maxLoopDurMS && 0 < ts && ts <= maxTimescale
+//@   ensures  0 <= ms*ts/1000 && ms*ts/1000 <= 10000000000000 && 0 <= ms*ts
+func lemmaTicksBounds(ms, ts int) {}
+
 // lemmaDivMulImp: lemmaDivMul in implication form (usable where the premise holds only on some paths).
 //@ lemma lemmaDivMulImp
 //@   ensures  k >= 0 && 0 <= c && c < b ==> (k*b+c)/b == k && (k*b+c)%b == c
@@ -573,6 +579,11 @@ func lemmaDivMulImp(k, c, b int) {}
 // availabilityStartTime, as the window arithmetic sees it (whole loops plus the tick-rounded rest).
 func specNowTicks(a *asset, rep *RepData, wt wrapTimes, atoMS int) int {
 	return wt.nowWraps*wrapDurOf(a, rep) + wt.nowRelMS*rep.MediaTimescale/1000 + atoMS*rep.MediaTimescale/1000
+}
+
+// specRelNow: "now + availabilityTimeOffset" inside the current loop, in media ticks (may exceed one loop).
+func specRelNow(rep *RepData, wt wrapTimes, atoMS int) int {
+	return wt.nowRelMS*rep.MediaTimescale/1000 + atoMS*rep.MediaTimescale/1000
 }
 
 // lemmaGapFree: segment n+1 starts exactly where segment n ends, also across a loop wrap.
@@ -691,7 +702,9 @@ func nrListed(entries []*m.S, n int) int {
 //@   requires a != nil && a.Reps != nil && a.Reps[repID] != nil && wfRep(a.Reps[repID]) && orderedRep(a.Reps[repID]) && loopExact(a, a.Reps[repID]) && wfWrapTimes(a, wt) && 0 <= atoMS && atoMS <= 86400000
 //@   use      lemmaWrapDurIsRepDur(a, a.Reps[repID])
 //@   use      lemmaDivMul(0, 0, len(a.Reps[repID].Segments))
-//@   use      lemmaRoll(wt.nowWraps, wt.nowRelMS*a.Reps[repID].MediaTimescale/1000 + atoMS*a.Reps[repID].MediaTimescale/1000, repDur(a.Reps[repID]))
+//@   use      lemmaTicksBounds(wt.nowRelMS, a.Reps[repID].MediaTimescale)
+//@   use      lemmaTicksBounds(wt.startRelMS, a.Reps[repID].MediaTimescale)
+//@   use      lemmaTicksBounds(atoMS, a.Reps[repID].MediaTimescale)
 //@   ensures  ts: result.mediaTimescale == uint32(a.Reps[repID].MediaTimescale)
 //@   ensures  none: result.lsi.nr == -1 <==> result.startNr == -1
 //@   ensures  range: result.startNr >= 0 ==> result.startNr <= result.lsi.nr
@@ -706,22 +719,23 @@ func nrListed(entries []*m.S, n int) int {
 //@   loop 1 use-entry lemmaDivMul(wt.nowWraps+1, 0, nrSegs)
 //@   loop 1 invariant nr <= nowNr+1 || nr == se.startNr+1
 //@   loop 1 invariant loopTicks: int(wrapDur) == wrapDurOf(a, rep) && relNowTime < wrapDur && nowNr == wt.nowWraps*nrSegs + relNowIdx && 0 <= relNowIdx && relNowIdx < nrSegs && wt.nowWraps >= 0
-//@   loop 1 invariant inLoop: relNowTime >= segs[0].EndTime ==> specNowTicks(a, rep, old(wt), atoMS) == wt.nowWraps*int(wrapDur) + int(relNowTime)
+//@   loop 1 invariant inLoopNoRoll: specRelNow(rep, old(wt), atoMS) < int(wrapDur) && relNowTime >= segs[0].EndTime ==> specNowTicks(a, rep, old(wt), atoMS) == wt.nowWraps*int(wrapDur) + int(relNowTime)
 //@   loop 1 invariant inLoopIdx: relNowTime >= segs[0].EndTime ==> segs[relNowIdx].EndTime <= relNowTime && (relNowIdx+1 < nrSegs ==> segs[relNowIdx+1].EndTime > relNowTime)
-//@   loop 1 invariant prevLoop: relNowTime < segs[0].EndTime ==> specNowTicks(a, rep, old(wt), atoMS) == (wt.nowWraps+1)*int(wrapDur) + int(relNowTime) && relNowIdx == nrSegs-1
+//@   loop 1 invariant prevLoopNoRoll: specRelNow(rep, old(wt), atoMS) < int(wrapDur) && relNowTime < segs[0].EndTime ==> specNowTicks(a, rep, old(wt), atoMS) == (wt.nowWraps+1)*int(wrapDur) + int(relNowTime) && relNowIdx == nrSegs-1
 //@   exit 2 requires edgeNr: lsi.nr == max(se.startNr, nowNr)
-//@   exit 2 requires edgeHasEnded: segs[0].StartTime == 0 ==> specEnd(a, rep, nowNr) <= specNowTicks(a, rep, old(wt), atoMS)
+//@   exit 2 requires edgeHasEnded: segs[0].StartTime == 0 && specRelNow(rep, old(wt), atoMS) < int(wrapDur) ==> specEnd(a, rep, nowNr) <= specNowTicks(a, rep, old(wt), atoMS)
 //@   loop 1 invariant nextNr: relNowIdx+1 == nrSegs ==> nowNr+1 == (wt.nowWraps+1)*nrSegs+0
 //@   loop 1 invariant nextInLoop: relNowIdx+1 < nrSegs ==> (nowNr+1)/len(rep.Segments) == wt.nowWraps && (nowNr+1)%len(rep.Segments) == relNowIdx+1
 //@   loop 1 invariant nextAfterWrap: relNowIdx+1 == nrSegs ==> (nowNr+1)/len(rep.Segments) == wt.nowWraps+1 && (nowNr+1)%len(rep.Segments) == 0
-//@   exit 2 requires nowTicksIs: (relNowTime >= segs[0].EndTime ==> specNowTicks(a, rep, old(wt), atoMS) == wt.nowWraps*int(wrapDur) + int(relNowTime)) && (relNowTime < segs[0].EndTime ==> specNowTicks(a, rep, old(wt), atoMS) == (wt.nowWraps+1)*int(wrapDur) + int(relNowTime))
+//@   exit 2 requires nowTicksIs: specRelNow(rep, old(wt), atoMS) < int(wrapDur) ==> (relNowTime >= segs[0].EndTime ==> specNowTicks(a, rep, old(wt), atoMS) == wt.nowWraps*int(wrapDur) + int(relNowTime)) && (relNowTime < segs[0].EndTime ==> specNowTicks(a, rep, old(wt), atoMS) == (wt.nowWraps+1)*int(wrapDur) + int(relNowTime))
 //@   exit 2 requires nextInLoopNr: relNowIdx+1 < nrSegs ==> (nowNr+1)/len(rep.Segments) == wt.nowWraps && (nowNr+1)%len(rep.Segments) == relNowIdx+1
-//@   exit 2 requires nextInLoopEnd: relNowIdx+1 < nrSegs ==> specEnd(a, rep, nowNr+1) == int(segs[relNowIdx+1].EndTime) + wt.nowWraps*int(wrapDur)
-//@   exit 2 requires nextInLoopHasNotEnded: segs[0].StartTime == 0 && relNowIdx+1 < nrSegs ==> specNowTicks(a, rep, old(wt), atoMS) < specEnd(a, rep, nowNr+1)
+//@   exit 2 requires nextInLoopEnd: relNowIdx+1 < nrSegs ==> specEnd(a, rep, nowNr+1) == int(rep.Segments[(nowNr+1)%len(rep.Segments)].EndTime) + wt.nowWraps*int(wrapDur)
+//@   exit 2 requires nextInLoopSeg: relNowIdx+1 < nrSegs ==> rep.Segments[(nowNr+1)%len(rep.Segments)].EndTime == segs[relNowIdx+1].EndTime
+//@   exit 2 requires nextInLoopHasNotEnded: segs[0].StartTime == 0 && specRelNow(rep, old(wt), atoMS) < int(wrapDur) && relNowIdx+1 < nrSegs ==> specNowTicks(a, rep, old(wt), atoMS) < specEnd(a, rep, nowNr+1)
 //@   exit 2 requires nextAfterWrapNr: relNowIdx+1 == nrSegs ==> (nowNr+1)/len(rep.Segments) == wt.nowWraps+1 && (nowNr+1)%len(rep.Segments) == 0
 //@   exit 2 requires nextAfterWrapEnd: relNowIdx+1 == nrSegs ==> specEnd(a, rep, nowNr+1) == int(segs[0].EndTime) + (wt.nowWraps+1)*int(wrapDur)
-//@   exit 2 requires nextAfterWrapHasNotEnded: segs[0].StartTime == 0 && relNowIdx+1 == nrSegs ==> specNowTicks(a, rep, old(wt), atoMS) < specEnd(a, rep, nowNr+1)
-//@   exit 1 requires noneEnded: segs[0].StartTime == 0 ==> specNowTicks(a, rep, old(wt), atoMS) < specEnd(a, rep, 0)
+//@   exit 2 requires nextAfterWrapHasNotEnded: segs[0].StartTime == 0 && specRelNow(rep, old(wt), atoMS) < int(wrapDur) && relNowIdx+1 == nrSegs ==> specNowTicks(a, rep, old(wt), atoMS) < specEnd(a, rep, nowNr+1)
+//@   exit 1 requires noneEnded: segs[0].StartTime == 0 && specRelNow(rep, old(wt), atoMS) < int(wrapDur) ==> specNowTicks(a, rep, old(wt), atoMS) < specEnd(a, rep, 0)
 //@   loop 1 use-entry lemmaWrapDurIsRepDur(a, rep)
 //@   loop 1 use lemmaGapFree(a, rep, nr-1)
 //@   loop 1 invariant lsi.nr == nr-1 && lsi.startTime == uint64(specStart(a, rep, nr-1)) && lsi.dur == specDur(rep, nr-1) && d == lsi.dur && lsi.timescale == uint64(rep.MediaTimescale)
